@@ -3,17 +3,20 @@
              every [process] call seen by every probe effect (probe id, rate last told, bits of [dt], frames) in the
              order in which the calls happened, followed by every probe's complete told-log.
     [CDelay]: buffer length in frames of a real [Delay] (read off the echo position).
-    [CReverb]: nothing yet (reserved).
+    [CReverb]: for every device rate of the list (init, then on_change_sample_rate ...), the positions in frames of the
+             first three echoes of an impulse on the left and on the right channel of a real, fully wet [Reverb] of
+             stereo width 1 = the lengths of its three shortest comb lines of either side (binary64, as the code).
     [CDt]: bits of the renderer's [dt] at a device rate. *)
 From Coq Require Import ZArith List Bool.
-From KV Require Import Base.IEEE Base.Outcome Base.Num Base.Corr C06.Model C06.Dur C16.Model.
+From KV Require Import Base.IEEE Base.Outcome Base.Num Base.Corr C06.Model C06.Dur C16.Model C16.ModelEffects.
 Import ListNotations.
 Local Open Scope Z_scope.
 
 Inductive case :=
 | CHist (sr ibs : Z) (main : list eshape) (nids : Z) (h : list op)
 | CDelay (t_ns : Z) (rates : list Z)
-| CDt (sr : Z).
+| CDt (sr : Z)
+| CReverb (rates : list Z).
 
 (** the Delay's length computation (integer arithmetic since the repair of F35; [delay_len] applies max 1) *)
 Definition frames64 (t_ns sr : Z) : Z := Z.min (2 ^ 64 - 1) (t_ns * sr / 1000000000).
@@ -73,4 +76,5 @@ Definition run (c : case) : list Z :=
       ++ (-1) :: flat_map (fun i => enc_told (find_told effs (Z.of_nat i))) (seq 0 (Z.to_nat nids))
   | CDelay t_ns rates => map (fun r => delay_frames_int t_ns r) rates
   | CDt sr => [dt_bits sr]
+  | CReverb rates => flat_map reverb_first_taps rates
   end.
